@@ -27,9 +27,9 @@ func famSesReent(t *testing.T, r *Rec) {
 	reentSlowCallback(r, cfg)
 	reentStalledPeer(r, cfg)
 	reentPollAfterAbortedPoll(r)
-	events := []string{"packetCreate", "flush", "drain", "packet", "message", "close", "cb"}
+	events := []string{"packetCreate", "flush", "drain", "packet", "message", "close", "cb", "upgrade"}
 	if r.thorough() {
-		events = append(events, "heartbeat", "upgrading", "upgrade")
+		events = append(events, "heartbeat", "upgrading")
 	}
 	for _, tr := range []string{"polling", "websocket"} {
 		for _, ev := range events {
@@ -91,6 +91,9 @@ func famSesReent(t *testing.T, r *Rec) {
 				if fault != "" {
 					what := "a listener of '" + ev + "' calling " + act + " on the session made the server " + fault
 					r.Violate("C18", "C18/reentrant-listener/"+fault+"/"+ev+"/"+act+"/"+tr, what, lines)
+					if ev == "upgrade" || ev == "upgrading" {
+						r.Violate("C08", "C08/upgrade-listener/"+fault+"/"+ev+"/"+act, "a candidate that followed the protocol did not complete the switch: "+what, lines)
+					}
 					continue
 				}
 				// what the session and its client saw
